@@ -12,7 +12,20 @@ def main():
     a = ap.parse_args()
     seed = int(os.environ.get('VERIF_SEED', '1'))
     mod = importlib.import_module('props.' + a.prop.lower())
-    sys.exit(runner.run_check(mod.PROP, a.tier, seed, a.replay))
+    try:
+        code = runner.run_check(mod.PROP, a.tier, seed, a.replay)
+    except Exception:
+        # the check could not be completed (the generators / oracles met something they do not handle - typically an implementation
+        # that answers outside everything the harness expects): the property is no longer shown to hold
+        import traceback
+        from harness import core
+        tb = traceback.format_exc()
+        sys.stderr.write(tb)
+        path = core.write_replay(mod.PROP.id, {'property': mod.PROP.id, 'kind': 'no-longer-checks', 'obligation': 'check-completes',
+                                              'detail': tb[-3000:], 'cases': [], 'seed': seed})
+        print('VIOLATION property=%s replay=%s no-failing-input-found' % (mod.PROP.id, path))
+        code = 1
+    sys.exit(code)
 
 if __name__ == '__main__':
     main()
